@@ -86,3 +86,22 @@ PROPS = {
                        'specification predicate vring_need_event for all index values incl. wrap-around',
     },
 }
+
+
+# Properties configured by separate files props.d/<ID>.json (same keys as above; "assumptions" is a list of strings).
+import glob as _glob, json as _json, os as _os
+for _f in sorted(_glob.glob(_os.path.join(_os.path.dirname(_os.path.abspath(__file__)), '..', 'props.d', '*.json'))):
+    _d = _json.load(open(_f))
+    _id = _d.pop('property_id', _os.path.splitext(_os.path.basename(_f))[0])
+    if _id in PROPS:
+        # merge: extra units / harnesses / assumptions
+        for _k in ('units', 'kani_quick', 'kani_thorough', 'assumptions'):
+            PROPS[_id].setdefault(_k, [])
+            for _x in _d.get(_k, []):
+                if _x not in PROPS[_id][_k]:
+                    PROPS[_id][_k].append(_x)
+        PROPS[_id].setdefault('kani_bounds', {}).update(_d.get('kani_bounds', {}))
+        if _d.get('explanation'):
+            PROPS[_id]['explanation'] = PROPS[_id].get('explanation', '') + ' | ' + _d['explanation']
+    else:
+        PROPS[_id] = _d
